@@ -19,7 +19,8 @@ def one(d):
     env = dict(os.environ, VERIF_REPO=root, VERIF_SCRATCH=f'/var/tmp/verif8086_{d}', VERIF_JOBS='5', VERIF_EVIDENCE_DIR=f'/var/tmp/mut_ev/{d}',
                VERIF_REPLAY_DIR=f'/var/tmp/mut_replays/{d}')
     t = time.time()
-    r = subprocess.run(['/verif/check', pid], capture_output=True, text=True, cwd='/verif', env=env, timeout=5400)
+    chk = os.environ.get('VERIF_CHECK_DIR', '/verif')
+    r = subprocess.run([chk + '/check', pid], capture_output=True, text=True, cwd=chk, env=env, timeout=5400)
     viol = [l for l in r.stdout.split('\n') if l.startswith('VIOLATION')]
     und = [l for l in r.stdout.split('\n') if l.startswith('UNDECIDED')]
     shutil.rmtree(root, ignore_errors=True)
